@@ -100,7 +100,7 @@ fn case<G: CurveTag>(bytes: &[u8], col: &mut Collector, max_members: usize) -> R
     while !single_invalid && members.len() < n_groups {
         let shape = if long_batch { SHAPES[ch.below(3)] } else { SHAPES[ch.below(SHAPES.len())] };
         let fx = fixture::<G>(shape.0, shape.1);
-        match ch.weighted(&if long_batch { [88u32, 2, 2, 1, 5, 1, 1] } else { [45, 9, 9, 7, 18, 6, 6] }) {
+        match ch.weighted(&if long_batch { [88u32, 2, 2, 1, 5, 1, 1, 0] } else { [42, 8, 8, 6, 16, 6, 6, 8] }) {
             0 => members.push(member_from(&fx, &fx.mirror, "valid".into(), shape).unwrap()),
             1 => {
                 let b = bad_witness::<G>(shape.0, shape.1);
@@ -163,6 +163,21 @@ fn case<G: CurveTag>(bytes: &[u8], col: &mut Collector, max_members: usize) -> R
                     let mut m = fx.mirror.clone();
                     m.ipp.a += delta;
                     members.extend(member_from(&fx, &m, format!("cancelling3:a{}", nm), shape));
+                }
+            }
+            // proofs from the harness's own prover: honest, or with junk second-phase points, or with
+            // one deviating term (transcript-consistent, so only the equation decides)
+            7 => {
+                use crate::ownprover::{own_prove, Cheat};
+                let cheat: Cheat<Fr<G>> = match ch.below(4) {
+                    0 => Cheat::None,
+                    1 if shape.1 == 0 => Cheat::JunkPhase2(ch.byte() as u64),
+                    2 => Cheat::EBlind(Fr::<G>::from(1 + ch.byte() as u64)),
+                    _ => Cheat::TShift(1, Fr::<G>::from(1 + ch.byte() as u64)),
+                };
+                let op = own_prove::<G>(&fx.prog, 1 + ch.byte() as u64, &cheat);
+                if let Ok(pf) = op.mirror.to_real() {
+                    members.push(Member { prog: Rc::new(fx.prog.clone()), commitments: op.commitments.clone(), proof: pf, kind: format!("own-prover:{}", format!("{:?}", cheat).split('(').next().unwrap_or("")), shape });
                 }
             }
             // duplicates of one invalid proof
@@ -292,6 +307,34 @@ fn distance_case<G: CurveTag>(total: usize, p: usize, dist: usize, col: &mut Col
     Ok(())
 }
 
+/// Two copies of one valid proof with the final scalar shifted by +k·d and -j·d at positions
+/// p and q of a short batch: weights that are small integer multiples of one another would let
+/// the pair through.
+fn ratio_case<G: CurveTag>(p: usize, q: usize, k: u64, j: u64, col: &mut Collector) -> Result<(), Failure> {
+    let fx = fixture::<G>(1, 0);
+    let d = Fr::<G>::from(7u64);
+    let mut plus = fx.mirror.clone();
+    let mut minus = fx.mirror.clone();
+    plus.ipp.a += d * Fr::<G>::from(k);
+    minus.ipp.a -= d * Fr::<G>::from(j);
+    let (pp, pm) = (plus.to_real().unwrap(), minus.to_real().unwrap());
+    let total = q + 2;
+    let members: Vec<BatchMember<G>> = (0..total)
+        .map(|i| BatchMember { prog: &fx.prog, commitments: &fx.commitments, proof: if i == p { &pp } else if i == q { &pm } else { &fx.proof } })
+        .collect();
+    let (r, pn) = run_batch::<G>(&members, 256, (p * 100 + q * 10) as u64 + k + j);
+    if pn.is_none() && matches!(r, Some(Ok(()))) {
+        return Err(Failure::new(
+            "C07:batch-accepts:weighted-cancelling-pair",
+            format!("a batch with errors +{}d at position {} and -{}d at position {} is accepted: the per-instance weights are not independent", k, p, j, q),
+            json!({"curve": G::CURVE.name(), "positions": [p, q], "multiples": [k, j]}),
+        ));
+    }
+    col.class("ratio-sweep");
+    col.nontrivial(fp_of(&(G::CURVE, p, q, k, j)));
+    Ok(())
+}
+
 fn dispatch(sub: &str, bytes: &[u8], col: &mut Collector) -> Result<(), Failure> {
     let mut it = sub.split('/');
     let _ = it.next();
@@ -301,6 +344,9 @@ fn dispatch(sub: &str, bytes: &[u8], col: &mut Collector) -> Result<(), Failure>
 }
 
 pub fn replay(sub: &str, bytes: &[u8], col: &mut Collector) -> Result<(), Failure> {
+    if sub == "c07/ratio-sweep" && bytes.len() == 5 {
+        return with_curve!(Curve::ALL[bytes[0] as usize % 3], G => ratio_case::<G>(bytes[1] as usize, bytes[2] as usize, bytes[3] as u64, bytes[4] as u64, col));
+    }
     if sub == "c07/distance-sweep" && bytes.len() == 5 {
         let (p, dist) = ((bytes[1] as usize) << 8 | bytes[2] as usize, (bytes[3] as usize) << 8 | bytes[4] as usize);
         return with_curve!(Curve::ALL[bytes[0] as usize % 3], G => distance_case::<G>(p + dist + 3, p, dist, col));
@@ -338,6 +384,28 @@ pub fn run(tier: &str, seed: u64) -> i32 {
             &items,
             &|(c, p, d)| vec![c.index() as u8, (*p >> 8) as u8, *p as u8, (*d >> 8) as u8, *d as u8],
             &|(c, p, d), col| with_curve!(*c, G => distance_case::<G>(*p + *d + 3, *p, *d, col)),
+        );
+        rep.outcome.merge(o);
+        rep.outcome.exhaustive = false;
+    }
+    // small-integer weight ratios between two positions
+    if rep.outcome.found.is_empty() {
+        let mut items = vec![];
+        let curves: Vec<Curve> = if tier == "thorough" { Curve::ALL.to_vec() } else { vec![Curve::ALL[((seed + 1) % 3) as usize]] };
+        for c in curves {
+            for (p, q) in [(0usize, 1usize), (0, 2), (1, 2), (0, 3), (1, 3), (2, 3), (0, 7), (3, 7)] {
+                for k in 1..=5u64 {
+                    for j in 1..=5u64 {
+                        items.push((c, p, q, k, j));
+                    }
+                }
+            }
+        }
+        let o = crate::runner::enumerate(
+            "c07/ratio-sweep",
+            &items,
+            &|(c, p, q, k, j)| vec![c.index() as u8, *p as u8, *q as u8, *k as u8, *j as u8],
+            &|(c, p, q, k, j), col| with_curve!(*c, G => ratio_case::<G>(*p, *q, *k, *j, col)),
         );
         rep.outcome.merge(o);
         rep.outcome.exhaustive = false;
